@@ -8,7 +8,7 @@ RULE = ("trees {A=base(L), B=base(L) with one byte flipped at offset o, C=base(L
         "for L in {0,1,4095,4096,4097,16383,16384,16385,65535,65536,65537,131073} and o in "
         "{0,4095,4096,16383,16384,L-4097,L-4096,L/2,L-1}; x hash function x pinned disk kind (x cache, prefix/suffix "
         "sizes, -t 1 in thorough); transform sub-space: keep/shrink/double/prefix programs x 5 I/O modes on trees that "
-        "differ before / only beyond the input length; transforms that exit with status 1 after no / two bytes of output, run once and twice with --cache (no group may be reported); cache histories: warm `--cache` run, then one member of a group gets the other class's bytes at the same length with its mtime moved forward / backward by seconds or by 1 ms, or by a rename over it / a swap of two files, then a second cached run. Oracle: every reported group is re-read and compared byte for "
+        "differ before / only beyond the input length; transforms that exit with status 1 after no / two bytes of output, run once and twice with --cache (no group may be reported); cache histories: warm `--cache` run, then one member of a group gets the other class's bytes at the same length with its mtime moved forward / backward by seconds or by 1 ms, or by a rename over it / a swap of two files, then a second cached run; two cached runs with transforms that run the same program with other arguments. Oracle: every reported group is re-read and compared byte for "
         "byte (transform output for --transform), file_len == that length. Non-trivial = a run that reported at least "
         "one group of >= 2 paths; distinct by (tree, configuration).")
 ASSUMPTIONS = ["--skip-content-hash is never passed (excluded by the statement)",
@@ -147,6 +147,13 @@ def cases(tier, seed):
                     if not quick:
                         out.append(mk(tree_plain(L, o), "plain", L, o, "blake3", "unknown", extra + ["--cache"],
                                       repeat=2, tr=[op, mode]))
+    # two cached runs whose transforms run the same program with other arguments (shrink: first two bytes, equal for
+    # A and B when the difference lies later; keep: everything)
+    for L, o in ((10, 9), (5000, 4999)):
+        for first, second in (("shrink", "keep"), ("keep", "shrink"), ("shrink", "double")):
+            c = mk(tree_two(L, o), "cacheswitch", L, o, "metro", "ssd", ["--cache", "--rf-over", "0"], tr=[second, "pipe"])
+            c["meta"]["first"] = first
+            out.append(c)
     # transforms that FAIL (exit status 1) after no / partial output, twice with the cache: a file whose transform
     # failed has no transform output and may not be reported in any group - in the first run or from the cache
     for L, o in ((10, 9), (5000, 4999)):
@@ -237,6 +244,38 @@ def evaluate_cachehist(case):
             "sample": {"kind": "cachehist", "args": case["args"], "meta": meta}}
 
 
+def evaluate_cacheswitch(case):
+    """`group --cache --transform 'fcv-tr <first>'`, then `group --cache --transform 'fcv-tr <second>'` on the same
+    files: the groups of the second run are compared byte for byte under the second transform."""
+    meta = case["meta"]
+    viol = []
+    nontrivial = None
+    outcome = "error_exit"
+    with C.Scratch() as sc:
+        C.make_tree(sc.tree, case["tree"])
+        r1 = C.fclones(["group"] + case["args"] + G.transform_args(meta["first"], "pipe") + ["r", "-f", "json"], sc, env_extra=case["env"])
+        rc, out, err, to = C.fclones(["group"] + case["args"] + G.transform_args(meta["tr"][0], "pipe") + ["r", "-f", "json"], sc,
+                                     env_extra=case["env"])
+        if rc == 0 and not to and r1[0] == 0:
+            rep = C.parse_json_report(out)
+            outcome = "groups" if rep.groups else "no_groups"
+            for g in rep.groups:
+                datas = [(C.u(p), G.tr_apply(meta["tr"][0], C.read_file(p))) for p in g["paths"]]
+                nontrivial = ["cacheswitch", meta["L"], meta["o"], meta["first"], meta["tr"][0]]
+                bad = [p for p, d in datas if d != datas[0][1]]
+                if bad:
+                    viol.append({"kind": "non_identical_group", "transform": meta["tr"][0], "differs_only_beyond_input_len": False,
+                                 "first_stage_that_could_see_the_difference": "stale_cache_of_transform_" + meta["first"],
+                                 "detail": "after a cached run with transform %s, the cached run with transform %s groups files with "
+                                           "different output: %s vs %s" % (meta["first"], meta["tr"][0], datas[0][0], bad[0])})
+                elif g["len"] != len(datas[0][1]):
+                    viol.append({"kind": "wrong_length", "transform": meta["tr"][0],
+                                 "detail": "after a cached run with transform %s: group reports length %d, transform %s gives %d bytes" % (
+                                     meta["first"], g["len"], meta["tr"][0], len(datas[0][1]))})
+    return {"violations": viol, "nontrivial": nontrivial, "outcome": outcome, "counters": {"cache_history_cases": 1},
+            "sample": {"kind": "cacheswitch", "meta": meta}}
+
+
 def evaluate_twofs(case):
     """Two freshly mounted tmpfs instances below the scanned root: files created in the same order get the same inode
     numbers on different devices. Same inode number + same length + different bytes must never be grouped."""
@@ -288,6 +327,8 @@ def evaluate(case):
         return evaluate_twofs(case)
     if meta["kind"] == "cachehist":
         return evaluate_cachehist(case)
+    if meta["kind"] == "cacheswitch":
+        return evaluate_cacheswitch(case)
     obs = G.run_group(case)
     viol = []
     files = obs["files"]["files"]
